@@ -32,7 +32,7 @@ func sweepContract(ct *Contract) *Contract {
 	}
 	n.Flags["frame"] = "off"
 	keep := func(cl *Clause) bool {
-		return mentionsLock(cl.Text) || strings.HasPrefix(cl.Label, "lk-") || strings.HasPrefix(cl.Label, "C09:")
+		return mentionsLock(cl.Text) || strings.HasPrefix(cl.Label, "lk-") || labelNames(cl.Label, "C09")
 	}
 	for _, r := range ct.Requires {
 		if keep(r) {
@@ -87,6 +87,20 @@ func sweepContract(ct *Contract) *Contract {
 	}
 	sweepCache[ct] = n
 	return n
+}
+
+// labelNames: the clause label is scoped ("[C09,C18:name]") and names the property.
+func labelNames(label, prop string) bool {
+	k := strings.Index(label, ":")
+	if k < 0 {
+		return false
+	}
+	for _, p := range strings.Split(label[:k], ",") {
+		if p == prop {
+			return true
+		}
+	}
+	return false
 }
 
 func hasTouches(ct *Contract) bool {
